@@ -170,7 +170,7 @@ def m_table():
         "C10": [("c10_run_chain_progress", m_run.c10_run_chain_progress), ("c10_precision", m_run.c10_precision),
                 ("c10_reporter", m_run.c10_reporter), ("c10_reporter_nuts", m_run.c10_reporter_nuts),
                 ("c10_hmc_progress", m_run.c10_hmc_progress)],
-        "C12": [("c12_ess", m_stats.c12_ess)],
+        "C12": [("c12_ess", m_stats.c12_ess), ("c12_autocov_bf", m_stats.c12_autocov_bf)],
         "C16": [("c16_new", m_stats.c16_new)],
         "C18": [("c18_init_stream", m_run.c18_init_stream)],
         "C02": [("c02_hmc_step", m_hmc.c02_hmc_step), ("c02_reversible", m_hmc.c02_reversible),
